@@ -70,7 +70,8 @@ package mcp
 
 // The gate of the receive path. 'dispatched' is the call of handleReceive. vm is the validated per-request
 // metadata, init the lifecycle bit read at the top.
-//@ func (*ServerSession).handle [C06]
+//@ func (*ServerSession).handle [C06, C03]
+//@   track jsonrpc2.Async as async
 //@   track validateRequestMeta as vrm
 //@   track handleReceive as dispatch
 //@   snapshot afterMeta after call validateRequestMeta
@@ -86,6 +87,7 @@ package mcp
 //@   assert at call handleReceive: @gate-new metaErr == nil && isNew ==> sdkSupports(version) && !removedIn2026(method)
 //@   assert at call handleReceive: @discover-needs-meta method == methodDiscover ==> isNew
 //@   assert at call handleReceive: @meta-valid metaErr == nil && $2 == req
+//@   ensures @only-calls-other-than-initialize-run-concurrently calls(async) <= 1 && (calls(async) == 1 ==> old(req.ID.value != nil) && method != methodInitialize)
 //@   ensures @dispatch-at-most-once calls(dispatch) <= 1
 //@   ensures @ping-always-served metaErr == nil && !isNew && method == methodPing ==> calls(dispatch) == 1
 //@   ensures @lifecycle-always-dispatched metaErr == nil && !isNew && (method == methodInitialize || method == notificationInitialized) ==> calls(dispatch) == 1
@@ -505,3 +507,21 @@ package mcp
 //@   assert at call context.WithTimeout: @bounded-and-detached $0 == callResult(detach, 1, 0) && $1 == notifyCancellationTimeout
 //@   assert at call Notify: @notice-uses-bounded-context $0 == conn && $1 == callResult(bound, 1, 0) && $2 == notificationCancelled
 //@   ensures @one-notice calls(notify) == 1 && calls(detach) == 1 && calls(bound) == 1
+
+// ---------------------------------------------------------------------------------------------
+// C02: JSON-RPC batches on the newline-delimited transport: the reply to a batch is withheld until every call of
+// that batch has been answered, and is then written once with every slot filled.
+// ---------------------------------------------------------------------------------------------
+//@ pred batchOK(t *ioConn, id jsonrpc2.ID) := id in t.batches ==> rawGet(t.batches, id) != nil && (id in rawGet(t.batches, id).unresolved)
+//@      && rawGet(rawGet(t.batches, id).unresolved, id) >= 0 && rawGet(rawGet(t.batches, id).unresolved, id) < len(rawGet(t.batches, id).responses)
+
+//@ func (*ioConn).updateBatch [C02]
+//@   nopanic explicit
+//@   requires t != nil && resp != nil && batchOK(t, resp.ID)
+//@   modifies mapOf(t.batches), mapOf(t.batches[resp.ID].unresolved), elems(t.batches[resp.ID].responses)
+//@   ensures @part-of-a-batch-iff-tracked result.1 <==> old(resp.ID in t.batches)
+//@   ensures @resolved-once result.1 ==> !(resp.ID in t.batches) && !(resp.ID in old(t.batches[resp.ID]).unresolved)
+//@        && old(t.batches[resp.ID]).responses[old(t.batches[resp.ID].unresolved[resp.ID])] == resp
+//@   ensures @reply-exactly-when-this-batch-is-complete result.1 ==> ((len(result.0) > 0 || result.0 != nil) <==> len(old(t.batches[resp.ID]).unresolved) == 0)
+//@   ensures @complete-reply-is-the-batch result.1 && len(old(t.batches[resp.ID]).unresolved) == 0 ==> result.0 == old(t.batches[resp.ID]).responses
+//@   ensures @other-ids-untouched forall id jsonrpc2.ID :: {inDom(t.batches, id)} id != resp.ID ==> (id in t.batches) == old(id in t.batches) && t.batches[id] == old(t.batches[id])
